@@ -30,7 +30,9 @@
       with the read before the lock the outcome (mined on P, head B) equals no sequential order;
       `table_head_decisions`: on the code every head read of the chain-lock functions is inside the section except
       the declared pre-check `InsertBlock/isIgnorableBlock`.
-    * `table_discipline`: by `decide` over the committed table, ALL nine shared variables satisfy the discipline on
+    * `table_discipline`: by `decide` over the committed table (the OUTPUT OF THE SCANNER, which is trusted: Lean
+      proves nothing about the source beyond this literal), the nine shared variables of c19Vars and the
+      read-modify-write record satisfy the discipline on
       the current code (sigCache under `consensus.sigCacheMu` since f4ffd1d, lastSig under `Confirmer.lastSigLock`
       since 204ebea, the unconfirmed tree under `ChainDatabase.RW` since a25165d, `FileQueue.Offset` under
       `FileQueue.putLock` since 20ee480); the only unlocked accesses left are constructor / start-up code.  The
@@ -412,6 +414,21 @@ theorem lastSig_consistent_locked (h0 x0 h1 x1 : Nat) :
     lsOutcome h0 x0 h1 x1 [false, false, false, true, true] = (if h1 > h0 then (h1, x1) else (h0, x0)) := by
   by_cases h : h0 < h1 <;> simp [lsOutcome, runLS, setLastSigSteps, readLastSigSteps, h]
 
+/-- **lastSig_batch_write_invisible**: the check-then-act window of `needConfirm` (lastSig read, lock released, stable
+    block read, decision; the batch goroutine's `SetLastSig` may fall in between) does not change the decision input:
+    a write of the batch goroutine replaces `(h0, x0)` by `(s, xs)` only if `h0 < s`, and `s` is the height of a block
+    that is already stable, `s ≤ stableH` for the stable height read afterwards — both values clamp to the stable
+    block.  (ASSUMED from the code, not from the table: the batch goroutine signs stable blocks only, the stable height
+    never decreases.) -/
+theorem lastSig_batch_write_invisible (h0 x0 s xs stableH stableX : Nat) (h1 : h0 < s) (h2 : s ≤ stableH) :
+    clampLast h0 x0 stableH stableX = clampLast s xs stableH stableX := by
+  unfold clampLast
+  have : h0 ≤ stableH := by omega
+  simp [this, h2]
+
+/-- non-vacuity, and the clamp matters: without it the two inputs differ -/
+example : clampLast 3 33 7 77 = clampLast 5 55 7 77 ∧ (3, 33) ≠ (5, 55) := by decide
+
 /-! ### read-modify-write of a stored record (`setConfirm` on a stable block) -/
 
 /-- sequential invariant: the stored set is exactly the acknowledged confirms, in order (nothing lost,
@@ -577,8 +594,8 @@ theorem cta_outcomes_unlocked :
 set_option maxRecDepth 16000 in
 /-- **table_discipline** (current code = /repo with the repairs f4ffd1d `sigCacheMu`, 204ebea
     `Confirmer.lastSigLock`, a25165d RW in the unconfirmed-tree readers, 20ee480 `FileQueue.putLock`): over the
-    committed table (= the source, by the per-run correspondence) the lock discipline holds for ALL nine shared
-    variables and for the read-modify-write record `Beansdb.blockRecord` (the read and the write back of
+    committed table (= the scanner's reading of the source; the scanner is trusted, see props) the lock discipline
+    holds for all nine shared variables of c19Vars and for the read-modify-write record `Beansdb.blockRecord` (the read and the write back of
     `setConfirm` on a stable block sit in ONE section of `ChainDatabase.RW`, so `rmw_no_lost_update` applies): every access from a real entry point holds the variable's lock (`guards` names it), so
     `drf_of_discipline` applies per variable and `signer_cache_atomicity` applies to the real `SignBlock`. -/
 theorem table_discipline :
